@@ -763,7 +763,7 @@ func (w *world) run(d caseDesc, dist map[string]int) Case {
 	if h.def {
 		defT = optRvOfGo(h.defGo)
 	}
-	c.Term = fmt.Sprintf("HC %s %s %s %s %s %s %s %s\n %s", Bool(h.coll), Bool(h.trans != 0), defT, B(h.prefix()), B(id),
+	c.Term = fmt.Sprintf("CH (HC %s %s %s %s %s %s %s %s\n %s)", Bool(h.coll), Bool(h.trans != 0), defT, B(h.prefix()), B(id),
 		initT, tinitT, g0, List(steps))
 	c.Nontrivial = evTotal > 0
 	return c
@@ -956,6 +956,251 @@ func allLists(alpha []string, maxLen int) [][]el {
 	return out
 }
 
+// ---------------------------------------------------------------- size-scaling family (oracle only)
+
+// bigDesc is the compact, replayable description of one long-collection update: the two
+// collections of integers are regenerated from it (generator seed + sizes), never listed.
+//   before = prefix ++ midA ++ suffix,  after = prefix ++ midB ++ suffix
+// Middle: "disjoint" (no common element), "shuffled" (midB is a permutation of midA, padded /
+// cut to its length), "mostly_equal" (midB = midA with ~3% replacements, insertions, deletions;
+// first and last element always differ so that the trimmed sizes are the ones asked for).
+type bigDesc struct {
+	Cfg     string `json:"cfg"`
+	Key     string `json:"key"`
+	Kind    string `json:"kind"` // "size"
+	GenSeed uint64 `json:"gen_seed"`
+	MidA    int    `json:"mid_a"`
+	MidB    int    `json:"mid_b"`
+	Prefix  int    `json:"prefix"`
+	Suffix  int    `json:"suffix"`
+	Middle  string `json:"middle"`
+}
+
+func (d bigDesc) build() (a, b []int) {
+	r := NewRng(d.GenSeed*1000003 + uint64(d.MidA)*31 + uint64(d.MidB))
+	var pre, suf, ma, mb []int
+	for i := 0; i < d.Prefix; i++ {
+		pre = append(pre, 1+i)
+	}
+	for i := 0; i < d.Suffix; i++ {
+		suf = append(suf, 5001+i)
+	}
+	for i := 0; i < d.MidA; i++ {
+		ma = append(ma, 10000+i)
+	}
+	fresh := 30000
+	next := func() int { fresh++; return fresh }
+	switch d.Middle {
+	case "disjoint":
+		for j := 0; j < d.MidB; j++ {
+			mb = append(mb, next())
+		}
+	case "shuffled":
+		perm := permute(r, d.MidA)
+		for j := 0; j < d.MidB; j++ {
+			if j < d.MidA {
+				mb = append(mb, ma[perm[j]])
+			} else {
+				mb = append(mb, next())
+			}
+		}
+	default: // mostly_equal
+		mb = append(mb, ma...)
+		for len(mb) > d.MidB && len(mb) > 2 {
+			p := 1 + r.Intn(len(mb)-2)
+			mb = append(mb[:p], mb[p+1:]...)
+		}
+		for len(mb) < d.MidB {
+			p := 0
+			if len(mb) > 0 {
+				p = r.Intn(len(mb))
+			}
+			mb = append(mb[:p], append([]int{next()}, mb[p:]...)...)
+		}
+		for k := 0; k < len(mb)/33; k++ {
+			mb[r.Intn(len(mb))] = next()
+		}
+	}
+	// the ends of the two middles differ, so nothing more is trimmed
+	if len(ma) > 0 && len(mb) > 0 {
+		if mb[0] == ma[0] {
+			mb[0] = next()
+		}
+		if mb[len(mb)-1] == ma[len(ma)-1] {
+			mb[len(mb)-1] = next()
+		}
+	}
+	a = append(append(append([]int{}, pre...), ma...), suf...)
+	b = append(append(append([]int{}, pre...), mb...), suf...)
+	return
+}
+
+func intsTerm(xs []int) string {
+	var sb strings.Builder
+	sb.WriteByte('[')
+	for i, x := range xs {
+		if i > 0 {
+			sb.WriteByte(';')
+		}
+		sb.WriteString(N(x))
+	}
+	sb.WriteByte(']')
+	return sb.String()
+}
+
+// get response -> the collection as integers
+func intsOfGet(resp []byte) ([]int, bool) {
+	var r struct {
+		Result *struct {
+			Collection *[]int `json:"collection"`
+		} `json:"result"`
+	}
+	if json.Unmarshal(resp, &r) != nil || r.Result == nil || r.Result.Collection == nil {
+		return nil, false
+	}
+	for _, x := range *r.Result.Collection {
+		if x < 0 {
+			return nil, false
+		}
+	}
+	return *r.Result.Collection, true
+}
+
+func (w *world) runBig(d bigDesc, dist map[string]int) Case {
+	h := w.cfgByName(d.Cfg)
+	if !h.coll || h.trans != 0 {
+		panic("size cases run on collection resources without transformer")
+	}
+	id, rid := h.id(d.Key), h.rid(d.Key)
+	c := Case{Desc: d, Tags: []string{d.Cfg, "size"}}
+	a, b := d.build()
+	toGo := func(xs []int) []interface{} {
+		l := make([]interface{}, len(xs))
+		for i, x := range xs {
+			l[i] = x
+		}
+		return l
+	}
+	bad := 0
+	setBad := func(code int) {
+		if bad == 0 {
+			bad = code
+		}
+	}
+	h.st.Add(id, toGo(a))
+	w.c.take()
+	var old, new_ []int
+	if resp, err := w.c.get(rid); err != nil {
+		w.impl = append(w.impl, ImplViolation{What: "get request not answered", Desc: d, Tags: c.Tags})
+		setBad(6)
+	} else if xs, ok := intsOfGet(resp); ok {
+		old = xs
+	} else {
+		setBad(6)
+	}
+	p := safely(func() {
+		txn := h.st.Write(id)
+		defer txn.Close()
+		if err := txn.Update(toGo(b)); err != nil {
+			panic(err)
+		}
+	})
+	if p != nil {
+		w.impl = append(w.impl, ImplViolation{What: fmt.Sprintf("panic in write transaction / change handler: %v", p), Desc: d, Tags: append(c.Tags, "panic")})
+		dist["panic"]++
+	}
+	msgs := w.c.take()
+	w.log.takeErrs()
+	var sb strings.Builder
+	sb.WriteByte('[')
+	for i, m := range msgs {
+		if i > 0 {
+			sb.WriteByte(';')
+		}
+		var ev struct {
+			Value *int `json:"value"`
+			Idx   *int `json:"idx"`
+		}
+		switch {
+		case m.subj == "event."+rid+".remove" && json.Unmarshal(m.data, &ev) == nil && ev.Idx != nil && *ev.Idx >= 0:
+			sb.WriteString("BR " + N(*ev.Idx))
+		case m.subj == "event."+rid+".add" && json.Unmarshal(m.data, &ev) == nil && ev.Idx != nil && *ev.Idx >= 0 && ev.Value != nil && *ev.Value >= 0:
+			sb.WriteString("BA " + N(*ev.Value) + " " + N(*ev.Idx))
+		default:
+			sb.WriteString("BR 0")
+			switch {
+			case !strings.HasPrefix(m.subj, "event."+rid+"."):
+				setBad(5)
+			case strings.HasSuffix(m.subj, ".create") || strings.HasSuffix(m.subj, ".delete") || strings.HasSuffix(m.subj, ".change"):
+				setBad(2)
+			default:
+				setBad(6)
+			}
+		}
+	}
+	sb.WriteByte(']')
+	if resp, err := w.c.get(rid); err != nil {
+		w.impl = append(w.impl, ImplViolation{What: "get request not answered", Desc: d, Tags: c.Tags})
+		setBad(6)
+	} else if xs, ok := intsOfGet(resp); ok {
+		new_ = xs
+	} else {
+		setBad(6)
+	}
+	h.st.Lock()
+	delete(h.st.Resources, id)
+	h.st.Unlock()
+	dist["size_events"] += len(msgs)
+	if d.MidA*d.MidB > 1<<20 {
+		dist["size_mn_above_2^20"]++
+	}
+	if d.MidA*d.MidB > dist["size_max_mn"] {
+		dist["size_max_mn"] = d.MidA * d.MidB
+	}
+	c.Term = fmt.Sprintf("CB (BC %s\n %s\n %s %d)", intsTerm(old), intsTerm(new_), sb.String(), bad)
+	c.Key = fmt.Sprintf("size %+v", d)
+	c.Nontrivial = len(msgs) > 0
+	return c
+}
+
+// sizeFamily: collection pairs whose differing middle has a size around a power of two and just
+// beyond, x {no common prefix, prefix 1, prefix k, suffix only, both} x {disjoint, shuffled,
+// mostly equal middle}.  full = every combination for that size, otherwise the middle kind rotates.
+func sizeFamily(tier string, seed uint64) []bigDesc {
+	type sz struct {
+		a, b int
+		full bool
+	}
+	sizes := []sz{{255, 255, false}, {256, 256, false}, {257, 256, false}, {1023, 1023, false}, {1024, 1024, false},
+		{1025, 1025, true}, {1100, 1100, false}, {700, 1600, false}, {2100, 2050, false}}
+	if tier == "thorough" {
+		sizes = []sz{{127, 128, true}, {255, 255, true}, {256, 256, true}, {257, 256, true}, {511, 513, true}, {1023, 1023, true},
+			{1024, 1024, true}, {1025, 1024, true}, {1024, 1025, true}, {1025, 1025, true}, {1100, 1100, true}, {700, 1600, true},
+			{300, 4000, true}, {2047, 2049, true}, {2100, 2050, true}, {3000, 3000, false}, {4095, 4097, false}, {5000, 5000, false}}
+	}
+	shapes := [][2]int{{0, 0}, {1, 0}, {17, 0}, {0, 9}, {5, 3}} // (prefix, suffix)
+	kinds := []string{"disjoint", "shuffled", "mostly_equal"}
+	var out []bigDesc
+	k := 0
+	for _, s := range sizes {
+		for _, ps := range shapes {
+			for ki, kind := range kinds {
+				if !s.full && ki != k%3 {
+					continue
+				}
+				cfg := "c0"
+				if len(out)%2 == 1 {
+					cfg = "c2"
+				}
+				out = append(out, bigDesc{Cfg: cfg, Kind: "size", GenSeed: seed, MidA: s.a, MidB: s.b,
+					Prefix: ps[0], Suffix: ps[1], Middle: kind})
+			}
+			k++
+		}
+	}
+	return out
+}
+
 func main() {
 	o := ParseOpts()
 	r := NewRng(o.Seed)
@@ -979,7 +1224,35 @@ func main() {
 		}
 		cases = append(cases, c)
 	}
+	var bigCases []Case
+	addBig := func(d bigDesc) {
+		nkey++
+		if d.Key == "" {
+			d.Key = fmt.Sprintf("s%d", nkey)
+		}
+		c := w.runBig(d, dist)
+		dist["case_size"]++
+		dist["cfg_"+d.Cfg]++
+		if c.Nontrivial {
+			dist["nontrivial"]++
+		}
+		bigCases = append(bigCases, c)
+	}
+	var probe struct {
+		Kind string `json:"kind"`
+	}
 	if o.Replay != "" {
+		if err := LoadReplay(o.Replay, &probe); err != nil {
+			panic(err)
+		}
+	}
+	if o.Replay != "" && probe.Kind == "size" {
+		var d bigDesc
+		if err := LoadReplay(o.Replay, &d); err != nil {
+			panic(err)
+		}
+		addBig(d)
+	} else if o.Replay != "" {
 		var d caseDesc
 		if err := LoadReplay(o.Replay, &d); err != nil {
 			panic(err)
@@ -987,6 +1260,10 @@ func main() {
 		d.Kind = "replay"
 		add(d)
 	} else {
+		// (e) size-scaling family (oracle only, see Run_C10.v)
+		for _, d := range sizeFamily(o.Tier, o.Seed) {
+			addBig(d)
+		}
 		// (a) ALL ordered pairs of collections over {1,2,3}: store holds a, Update(b)
 		maxLen := 3
 		if o.Tier == "thorough" {
@@ -1081,14 +1358,41 @@ func main() {
 		}
 	}
 	w.close()
-	Emit(o, "C10", "From GoRes Require Import Run.Run_C10.", "hcase",
+	// spread the long cases over the first shards (the exhaustive short pairs, cheap to evaluate);
+	// round-robin by size so that every such shard gets a similar load
+	if len(bigCases) > 0 {
+		sort.SliceStable(bigCases, func(i, j int) bool { return len(bigCases[i].Term) > len(bigCases[j].Term) })
+		var rr []Case
+		for sh := 0; sh < 6; sh++ {
+			for i := sh; i < len(bigCases); i += 6 {
+				rr = append(rr, bigCases[i])
+			}
+		}
+		bigCases = rr
+		var merged []Case
+		every := (len(cases)*6/10)/len(bigCases) + 1
+		bi := 0
+		for i, c := range cases {
+			if i%every == 0 && bi < len(bigCases) {
+				merged = append(merged, bigCases[bi])
+				bi++
+			}
+			merged = append(merged, c)
+		}
+		merged = append(merged, bigCases[bi:]...)
+		cases = merged
+	}
+	Emit(o, "C10", "From GoRes Require Import Run.Run_C10.", "ccase",
 		"real res.Service + mockstore + store.Handler in 12 configurations (model|collection x {no Transformer, non-identity Transformer accepting any value, "+
 			"non-identity Transformer that rejects every Go type but the stored ones (e.g. the json.RawMessage Default)} x +-Default); "+
 			"ALL ordered pairs of collections of length <= 3 (quick) / <= 4 (thorough) over {1,2,3} as store content a then Update(b); "+
 			"all pairs of models over 2 keys x {absent,1,2}; corner histories (create/delete/default/transform error; create-update-delete-recreate of the entry of a default-backed resource) per configuration; "+
 			"random histories of 1-10 write transactions (Create/Update/Delete incl. failing ones) over models and collections of up to 12 "+
 			"primitives, references, soft references and data values, each value derived from the previous by insert/delete/replace/swap/move/duplicate "+
-			"edits, stored as natural Go values, []store.Value/map[string]store.Value or json.RawMessage; non-trivial = at least one event was published; "+
+			"edits, stored as natural Go values, []store.Value/map[string]store.Value or json.RawMessage; "+
+			"size-scaling family (oracle only): one Update of a collection of integers prefix++midA++suffix -> prefix++midB++suffix with |midA|,|midB| around powers of two and just beyond "+
+			"(255..2100 quick, 127..5000 thorough, incl. |midA|*|midB| just below/above 2^20) x (prefix,suffix) in {(0,0),(1,0),(17,0),(0,9),(5,3)} x {disjoint, shuffled, mostly-equal middle}; "+
+			"non-trivial = at least one event was published; "+
 			"distinct by the whole case term",
 		cases, dist, nil, w.impl, 250)
 }
